@@ -2,6 +2,7 @@ import NmVerif.Proto
 import NmVerif.Simd.Loop
 import NmVerif.Simd.Enum
 import NmVerif.Simd.Eval
+import NmVerif.Simd.IntLanes
 /-
   Driver handler of C12: answers the harness protocol of harness/h_c12_*.cpp with the MODEL
   (Simd/Loop.lean, Simd/Enum.lean, Simd/Eval.lean) on integer data.  Requests reach the driver with the
@@ -42,7 +43,101 @@ def arrOf (a : Args) (shapeK layoutK dataK : String) : Option (NDA Int) := do
   let col := (a.get? layoutK) == some "col"
   pure { shape := shape, colMajor := col, data := data }
 
+/-! ### integer element types (`ibinary`, `iouter`, `ireduce`, `imatmul` of harness/h_c12i_*.cpp)
+
+  The model functions are those of the float requests (`simdEvalBinarySame`, `simdEvalBinary2d`, `simdEvalOuter`,
+  `simdEvalReduceAll`, `simdReduceAxisK`) at element type `BitVec w`: operands are stored as bit patterns
+  (`IntTy.encode`), the packed instruction is `packInt o` (modular on every lane, sign-agnostic), the scalar functor of
+  the tail / PAD steps is `IOp.lane` (= `scalarOp` wherever that is defined: `scalarOp_eq_lane`), results are read back
+  as numbers of the element type (`IntTy.decode`). -/
+
+def intTyOf : String → Option IntTy
+  | "i8" => some ⟨8, true⟩ | "u8" => some ⟨8, false⟩
+  | "i16" => some ⟨16, true⟩ | "u16" => some ⟨16, false⟩
+  | "i32" => some ⟨32, true⟩ | "u32" => some ⟨32, false⟩
+  | "i64" => some ⟨64, true⟩ | "u64" => some ⟨64, false⟩
+  | _ => none
+
+def iopOf : String → Option IOp
+  | "add" => some .add
+  | "subtract" => some .sub
+  | "multiply" => some .mul
+  | _ => none
+
+def bvArrOf (t : IntTy) (a : Args) (shapeK dataK : String) : Option (NDA (BitVec t.bits)) := do
+  let shape ← a.nats shapeK
+  let data ← a.ints dataK
+  pure { shape := shape, colMajor := false, data := data.map t.encode }
+
+def okBV (t : IntTy) (shape : String) (vals : List (BitVec t.bits)) : String :=
+  okVals shape (vals.map t.decode)
+
+def handleInt (kind : String) (a : Args) : Option String :=
+  match kind with
+  | "c12.ibinary" => orBad do
+      let t ← (a.get? "dtype").bind intTyOf
+      let o ← (a.get? "op").bind iopOf
+      let N ← a.nat "lanes"
+      let l ← bvArrOf t a "lshape" "ldata"
+      let r ← bvArrOf t a "rshape" "rdata"
+      if l.shape == r.shape then
+        match simdEvalBinarySame N (packInt o) o.lane l r (List.replicate (prod l.shape) 0) with
+        | some out => pure (okBV t (fmtNats l.shape) out)
+        | none => pure "ub"
+      else
+        match l.shape, r.shape with
+        | [lr, lc], [rr, rc] =>
+          let R := max lr rr
+          let C := max lc rc
+          match simdEvalBinary2d N (packInt o) o.lane l r lr lc rr rc C (List.replicate (R * C) 0) with
+          | some out => pure (okBV t (fmtNats [R, C]) out)
+          | none => pure "ub"
+        | _, _ => pure "unsupported"
+  | "c12.iouter" => orBad do
+      let t ← (a.get? "dtype").bind intTyOf
+      let o ← (a.get? "op").bind iopOf
+      let N ← a.nat "lanes"
+      let l ← bvArrOf t a "lshape" "ldata"
+      let r ← bvArrOf t a "rshape" "rdata"
+      let os := l.shape ++ r.shape
+      match simdEvalOuter N (packInt o) o.lane l r (List.replicate (prod os) 0) with
+      | some out => pure (okBV t (fmtNats os) out)
+      | none => pure "ub"
+  | "c12.ireduce" => orBad do
+      let t ← (a.get? "dtype").bind intTyOf
+      let o ← (a.get? "op").bind iopOf
+      let N ← a.nat "lanes"
+      let arr ← bvArrOf t a "shape" "data"
+      let keep ← a.nat "keepdims"
+      let axis ← a.optInt "axis"
+      match axis with
+      | none =>
+        match simdEvalReduceAll N (packInt o) o.lane o.identity arr with
+        | some v => pure (okBV t (if keep == 0 then "num" else fmtNats (arr.shape.map (fun _ => 1))) [v])
+        | none => pure "ub"
+      | some ax =>
+        match simdReduceAxisK N (packInt o) o.lane o.identity arr ax (keep != 0) with
+        | some (outShape, out) => pure (okBV t (fmtNats outShape) out)
+        | none => pure "ub"
+  | "c12.imatmul" => orBad do
+      let t ← (a.get? "dtype").bind intTyOf
+      let N ← a.nat "lanes"
+      let l ← bvArrOf t a "lshape" "ldata"
+      let r0 ← bvArrOf t a "rshape" "rdata"
+      let r : NDA (BitVec t.bits) := { r0 with colMajor := true }     -- rhs buffer in column-major storage order
+      match l.shape, r.shape with
+      | [M, K], [_, Nn] =>
+        -- `op.fmadd(l, r, acc)` on integer lanes = mullo then add (x86_sse.hpp:310-315, vector_extension.hpp:246-250)
+        match simdEvalMatmul N (fun x y z => x * y + z) (· * ·) (· + ·) 0 l r M K Nn (List.replicate (M * Nn) 0) with
+        | some out => pure (okBV t (fmtNats [M, Nn]) out)
+        | none => pure "ub"
+      | _, _ => none
+  | _ => none
+
 def handle : Handler := fun kind a =>
+  match handleInt kind a with
+  | some r => some r
+  | none =>
   match kind with
   | "c12.unary" => orBad do
       let f ← (a.get? "op").bind unaryF
